@@ -189,6 +189,21 @@ def check_function(facts, fn, res, rule, nbparticles_field="nbParticles"):
                     else:
                         raise AnalysisBroken("%s: use of the per-leaf pointer array '%s' outside a recognised copy statement" % (facts.loc(x), x.get("name")))
             # allocation extent of the global objects captured by the lambda
+    # group-wise copies: `for(auto& g : particleGroups) helper(per-particle array, g.getParticleIndexes(0), g.getNbParticles(), g.getParticleData/Rhs(0))`
+    # - the rows of leaf 0 of a group are the rows of the whole group (leaves are consecutive ranges of them), so the helper sees one
+    # "leaf" holding all the group's particles
+    for fr in walk(b):
+        if fr.get("k") != "CXXForRangeStmt" or len(kids(fr)) < 3 or kids(fr)[0] is None or kids(fr)[0].get("k") != "VarDecl":
+            continue
+        rng = strip(kids(fr)[1])
+        if rng.get("name") != "particleGroups":
+            continue
+        gv = kids(fr)[0]["did"]
+        for call in walk(kids(fr)[-1]):
+            if call.get("k") in ("CallExpr", "CXXMemberCallExpr") and any(g_["name"] == tbf.callee_name(call) for g_ in facts.methods_of(fn.get("cls")) if tbf.body(g_) is not None) \
+                    and not (tbf.call_base(call) is not None and strip(tbf.call_base(call)).get("did") == gv):
+                if group_helper_copy(facts, fn, call, gv, decls, res, rule):
+                    n += 1
     # allocation sizes
     for d in decls.values():
         te = decl_extent(facts, fn, d) if d.get("k") == "VarDecl" else type_extent(d.get("t", ""))
@@ -282,6 +297,77 @@ def helper_copy(facts, fn, lm, call, decls, res, rule):
         if not copyrel.position_sweeps(sympy.sympify(p1), ft.loops, N):
             raise AnalysisBroken("%s: cannot show that leaf position `%s` sweeps [0, number of particles of the leaf) exactly once" % (facts.loc(ft.node), p1))
     _helper_done[key] = True
+    return True
+
+
+def group_helper_copy(facts, fn, call, gv, decls, res, rule):
+    import sympy
+    import copyrel
+    nm = tbf.callee_name(call)
+    args = tbf.call_args(call)
+    cands = [g for g in facts.methods_of(fn.get("cls")) if g["name"] == nm and tbf.body(g) is not None and len(g["params"]) == len(args)]
+    if len(cands) != 1:
+        return False
+    g = cands[0]
+    N = sympy.Symbol("N", integer=True, positive=True)
+    bind = {}
+    elem_leaf = None
+    dest = None
+    for p_, a in zip(g["params"], args):
+        a0 = strip(a)
+        base = a0
+        if base.get("k") in ("CallExpr", "CXXMemberCallExpr") and tbf.callee_name(base) in ("get", "data") and tbf.call_base(base) is not None and not tbf.call_args(base):
+            base = strip(tbf.call_base(base))
+        if base.get("k") == "DeclRefExpr" and base.get("did") in decls:
+            te = decl_extent(facts, fn, decls[base["did"]])
+            if te is not None and te[0][0][0] == "orig":
+                bind[p_["did"]] = copyrel.Obj("DEST", base["name"])
+                dest = (base, te)
+                continue
+        if a0.get("k") in ("CallExpr", "CXXMemberCallExpr") and tbf.call_base(a0) is not None and strip(tbf.call_base(a0)).get("did") == gv:
+            acc = tbf.callee_name(a0)
+            aa = tbf.call_args(a0)
+            zero = len(aa) == 1 and strip(aa[0]).get("k") == "IntegerLiteral" and strip(aa[0]).get("val") == 0
+            if acc == "getParticleIndexes" and zero:
+                bind[p_["did"]] = copyrel.Obj("IDX", "indexes of the group")
+                continue
+            if acc in ("getParticleData", "getParticleRhs") and zero:
+                bind[p_["did"]] = copyrel.Obj("LEAF", acc)
+                elem_leaf = acc
+                continue
+            if acc == "getNbParticles" and not aa:
+                bind[p_["did"]] = N
+                continue
+        raise AnalysisBroken("%s: argument `%s` of the group-wise copy helper %s is not one of (per-particle array, the group's original indexes, the group's rows, the group's particle count)" % (facts.loc(a), facts.ntext(a)[:50], nm))
+    if dest is None or elem_leaf is None:
+        return False
+    it = copyrel.Interp(facts, g, bind)
+    it.run(tbf.body(g))
+    if not it.out:
+        raise AnalysisBroken("%s: the copy helper %s copies nothing the engine recognises" % (facts.loc(call), nm))
+    f = tbf.rel(facts.path_of(g))
+    for ft in it.out:
+        d, sidx = ft.dest_obj, ft.src
+        if d.role != "DEST":
+            raise AnalysisBroken("%s: group-wise scatter not modelled" % facts.loc(ft.node))
+        didx = ft.dest_idx
+        cond = [c for c in it.conditional if any(x is ft.node for x in walk(c))]
+        under = (" (on the path taken when `%s` %s)" % (facts.ntext([y for y in kids(cond[-1]) if y.get("k") != "DeclStmt"][0])[:70], "holds" if any(x is ft.node for x in walk([y for y in kids(cond[-1]) if y.get("k") != "DeclStmt"][1])) else "does not hold")) if cond else ""
+        if not (isinstance(sidx, copyrel.Load) and sidx.obj.role == "LEAF" and len(didx) == 2 and isinstance(didx[0], copyrel.Load) and didx[0].obj.role == "IDX"):
+            res.violation(rule, f, g["qname"], "shape@%d" % ft.node["l"][1], ft.node["l"][1],
+                          "the copy `%s`%s writes the per-particle record number `%s`, which is not the original index stored for the copied position: the order of the particles inside a group is the sorter's, not the insertion order, so entry i does not hold the values of the particle inserted at position i" % (facts.ntext(ft.node)[:70], under, didx[0]))
+            continue
+        p1, v1 = didx[0].idx[0], didx[1]
+        v2, p2 = sidx.idx
+        res.instance(rule, "%s via %s @%d" % (fn["qname"], nm, ft.node["l"][1]), facts.loc(ft.node), "DEST[IDX[%s]][%s] <- GROUP[%s][%s]%s" % (p1, v1, v2, p2, under))
+        if sympy.simplify(p1 - p2) != 0:
+            res.violation(rule, f, g["qname"], "position@%d" % ft.node["l"][1], ft.node["l"][1], "the record written under the original index of position `%s` receives the values stored at position `%s`%s" % (p1, p2, under))
+            continue
+        if sympy.simplify(v1 - v2) != 0:
+            res.violation(rule, f, g["qname"], "value@%d" % ft.node["l"][1], ft.node["l"][1], "value slot `%s` of the record receives value row `%s`%s" % (v1, v2, under))
+            continue
+        if not copyrel.position_sweeps(sympy.sympify(p1), ft.loops, N):
+            raise AnalysisBroken("%s: cannot show that position `%s` sweeps [0, number of particles of the group) exactly once" % (facts.loc(ft.node), p1))
     return True
 
 
